@@ -269,6 +269,8 @@ ARGSETS = {
         {'ionic_step_skip': 2, 'ionic_step_offset': 1},
         {'parse_dos': False},
         {'ionic_step_skip': 2, 'constant_lattice': False},
+        {'ionic_step_skip': 3},
+        {'ionic_step_skip': 3, 'ionic_step_offset': 1},
     ],
     'gromacs': [
         {'temperature': 300},
